@@ -27,9 +27,11 @@ class P:
         items = []
         nh = 250 if tier == "quick" else 20000
         fnames = ["foo", "bar", "min", "sum", "Foo", "MIN"]
-        inames = ["hi", "+", "==", "in", "lo", "Hi"]
-        pnames = ["neg", "-", "!", "not", "Neg"]
-        snames = ["++", "--", "bang", "Bang"]
+        # word operators, built-in names, case variants, and a registered symbolic operator starting with each of the
+        # fourteen operator characters (+ - * / ^ % & ! = ? : > < |), `?` and `:` included
+        inames = ["hi", "+", "==", "in", "lo", "Hi", "+-", "-+", "**", "//", "^^", "%%", "&|", "!!", "=~", "??", ":=", "::", "><", "<>", "|>"]
+        pnames = ["neg", "-", "!", "not", "Neg", "??", "::", "**", "=~"]
+        snames = ["++", "--", "bang", "Bang", "!!", "?:", "%%", ":>"]
         for _ in range(nh):
             ops, expect = [], []
             reg = {}          # (kind, name) -> hid
